@@ -157,4 +157,5 @@ def run(prog, rep, tier, cfg):
     X.guard('K6b', 'find_lane:max', fl, [c.bb for c in fl.calls if (c.callee or '').endswith('::get')], m_rel('gt', ['P:2'], ['K:MAX_LANE'], False), 'lane id > MAX_LANE => Err')
     # ---- running totals (amounts, power, datacap) accumulated in loops keep their earlier contributions
     X.accumulator_integrity('K12', 'running-totals', ['fil_actor_paych'], 'running totals of amounts')
+    X.no_dropped_results('K14', 'results-not-discarded', ['fil_actor_paych'], 'no Result of a call is discarded')
 
